@@ -246,10 +246,8 @@ fn take_side(cap: &mut Capture) -> String {
         t.borrow_mut().clear();
         v.join(",")
     });
-    let d = ruschm::verif::max_depth();
-    ruschm::verif::reset();
     let o = cap.take();
-    format!(" t=[{}] d={} o={}", t, d, hex_encode(&o))
+    format!(" t=[{}] o={}", t, hex_encode(&o))
 }
 
 fn lname(parts: &[String]) -> LibraryName {
@@ -411,6 +409,22 @@ fn handle(w: &mut World, cap: &mut Capture, line: &str) -> String {
             let r = w.insts.get_mut(&i).unwrap().eval(text.chars());
             let o = show_outcome(w, &r);
             format!("{}{}", o, take_side(cap))
+        }
+        "DEVAL" => {
+            let i: i64 = words[1].parse().unwrap();
+            let text = hex_str(words[2]);
+            let mut parser = Parser::from_lexer(Lexer::from_char_stream(text.chars()));
+            match parser.next() {
+                Some(Ok(stmt @ ruschm::parser::Statement::Expression(_))) => {
+                    ruschm::verif::reset();
+                    let r = w.insts.get_mut(&i).unwrap().eval_root_ast(&stmt);
+                    let d = ruschm::verif::max_depth();
+                    ruschm::verif::reset();
+                    let o = show_outcome(w, &r);
+                    format!("{}{} d={}", o, take_side(cap), d)
+                }
+                _ => "(not-an-expression)".to_string(),
+            }
         }
         "PROG" => {
             let i: i64 = words[1].parse().unwrap();
